@@ -525,4 +525,123 @@ theorem conv_KD (g : Grammar) (o : Opts) (hd : drawsAll g o = true) :
           rw [hb] at q1 q2 q3
           exact ⟨q1, q2, hF0.trans ((hLK.fr.weaken (by omega)).trans q3)⟩
 
+/-! ### the final state and the resolved trees -/
+
+theorem node_filled_of_all {s : St} (h : AllFilled s) (r : Nat) : (s.node r).kw.filled = true := by
+  cases hr : s.heap[r]? with
+  | none => rw [node_kw_absent hr]; rfl
+  | some a => rw [node_of_get hr]; exact h a (List.mem_of_getElem? hr)
+
+theorem extract_AD (s : St) (el : Nat) (ha : AllFilled s) (hd : DInv s) :
+    AllFilled (extractIntoDiagram s el) ∧ DInv (extractIntoDiagram s el) := by
+  refine ⟨AllFilled_HS ha (HS_extract s el), ?_⟩
+  cases hl : aget s.lookup el with
+  | none => rw [extract_none s el hl]; exact hd
+  | some pos =>
+    rw [extract_eq' s el pos hl]
+    have ha1 : AllFilled (exNT s pos) := AllFilled_HS ha (HS_exNT s pos)
+    intro p hp
+    have hp' : p ∈ aset (exNT s pos).diagrams el
+        { name := pos.name, content := contentOf (exNT s pos) pos.converted, index := pos.number } := hp
+    rcases mem_aset _ _ _ p hp' with h | h
+    · rw [exNT_diagrams] at h; exact hd p h
+    · rw [h]; exact contentOf_isRef _ _ (node_filled_of_all ha1 _)
+
+theorem mark_force_AD (g : Grammar) (s : St) (el : Nat) (name : Option String) (ha : AllFilled s) (hd : DInv s) :
+    AllFilled (markForExtraction g s el name true) ∧ DInv (markForExtraction g s el name true) := by
+  cases hl : aget s.lookup el with
+  | none =>
+    have e : markForExtraction g s el name true = s := by
+      unfold markForExtraction; simp only [hl]
+    rw [e]; exact ⟨ha, hd⟩
+  | some st =>
+    rw [mark_eq g s el name true st hl]
+    simp only [Bool.true_or, if_true]
+    exact extract_AD _ el ha hd
+
+theorem convertRoot_AD (g : Grammar) (o : Opts) (fuel root : Nat) (s : St)
+    (hd : drawsAll g o = true) (hroot : root < g.length)
+    (h : convertRoot g o fuel root = some s) : AllFilled s ∧ DInv s := by
+  unfold convertRoot at h
+  split at h
+  · exact absurd h (by simp)
+  · rename_i r s0 hc
+    obtain ⟨hHS, _⟩ := conv_HS g o hd fuel root none 0 none {} r s0 hroot hc
+    have h0 : AllFilled s0 := AllFilled_HS (fun nd hnd => absurd hnd (by simp)) hHS
+    obtain ⟨_, hD0, _⟩ := conv_KD g o hd fuel root none 0 none {} r s0 hroot hc
+      ⟨fun _ _ h => absurd h (by simp), fun _ _ h => absurd h (by simp)⟩ (fun _ h => absurd h (by simp))
+    split at h
+    · rename_i st hst
+      simp only [Option.some.injEq] at h
+      subst h
+      split
+      · exact mark_force_AD g { s0 with lookup := aset s0.lookup root { st with name := some "" } } root none h0 hD0
+      · exact mark_force_AD g s0 root none h0 hD0
+    · simp only [Option.some.injEq] at h
+      subst h
+      exact ⟨h0, hD0⟩
+
+mutual
+/-- does the tree contain the `""` placeholder -/
+def Tree.hasEmptyStr : Tree → Bool
+  | .rawNone => false
+  | .rawEmpty => true
+  | .node _ _ _ ks => Tree.hasEmptyStrL ks
+def Tree.hasEmptyStrL : List Tree → Bool
+  | [] => false
+  | t :: ts => t.hasEmptyStr || Tree.hasEmptyStrL ts
+end
+
+theorem hasEmptyStrL_false (ts : List Tree) (h : ∀ t ∈ ts, t.hasEmptyStr = false) :
+    Tree.hasEmptyStrL ts = false := by
+  induction ts with
+  | nil => simp [Tree.hasEmptyStrL]
+  | cons a as ih =>
+    simp only [Tree.hasEmptyStrL, Bool.or_eq_false_iff]
+    exact ⟨h a (List.mem_cons_self ..), ih (fun t ht => h t (List.mem_cons_of_mem _ ht))⟩
+
+theorem resolve_noEmptyStr (heap : List PNode) (hall : ∀ nd ∈ heap, nd.kw.filled = true) :
+    ∀ f slot, slot ≠ .empty → (resolve heap f slot).hasEmptyStr = false := by
+  intro f
+  induction f with
+  | zero =>
+    intro slot hs
+    cases slot with
+    | none => simp [resolve, Tree.hasEmptyStr]
+    | empty => exact absurd rfl hs
+    | ref r => simp [resolve, Tree.hasEmptyStr]
+  | succ f ih =>
+    intro slot hs
+    cases slot with
+    | none => simp [resolve, Tree.hasEmptyStr]
+    | empty => exact absurd rfl hs
+    | ref r =>
+      unfold resolve
+      split
+      · simp [Tree.hasEmptyStr]
+      · rename_i n hn
+        have hf := hall n (List.mem_of_getElem? hn)
+        split
+        · simp [Tree.hasEmptyStr, Tree.hasEmptyStrL]
+        · rename_i v hv
+          rw [hv] at hf
+          simp only [Tree.hasEmptyStr]
+          refine hasEmptyStrL_false _ ?_
+          intro t ht
+          simp only [List.mem_singleton] at ht
+          subst ht
+          refine ih v ?_
+          intro e; rw [e] at hf; exact absurd hf (by simp [Kw.filled, Slot.isRef])
+        · rename_i l hl
+          rw [hl] at hf
+          simp only [Tree.hasEmptyStr]
+          refine hasEmptyStrL_false _ ?_
+          intro t ht
+          obtain ⟨v, hv, rfl⟩ := List.mem_map.mp ht
+          refine ih v ?_
+          intro e
+          simp only [Kw.filled, List.all_eq_true] at hf
+          have := hf v hv
+          rw [e] at this; exact absurd this (by simp [Slot.isRef])
+
 end PP.Diagram
